@@ -243,3 +243,33 @@ def frag_cases(ctx):
                 fr.append(s[prev:p]); prev = p
             out.append(fr)
     return [" ".join(hx(f) for f in fr) for fr in out]
+
+
+# ------------------------------------------------------------------ model-fidelity audit (AUDIT.md)
+def audit_frag_cases(ctx):
+    """the client loop of C09 with EMPTY deliveries in every place (before, between, inside a head, after the end), deliveries
+    after an ERROR, and `required` exactly at / one below the saturation point of claim_bytes"""
+    out = ["-", "- -", "- 01", "01 -", "01 - -", "- - 19 - 01 - 00 -", "1c 01", "01 1c 01", "01 - 1c - 01", "f9 7e - 00 ff", "ff - ff",
+           "5b ffffffffffffffff 01", "5b fffffffffffffff7 -", "5b fffffffffffffff6 01", "5b fffffffffffffff5 - 01", "7b - ffffffffffffffff",
+           "5b 00 00 00 00 00 00 00 00 01", "5b0000000000000000 - 01", "5f - 41 - 00 - ff", "bf - ff", "19", "19 -", "19 01", "19 01 -"]
+    for ib in (0x18, 0x19, 0x1A, 0x1B, 0x58, 0x79, 0x9A, 0xBB, 0xD8, 0xF9, 0xFA, 0xFB):
+        t = min_token(ib)
+        for k in range(1, len(t)):
+            out.append("%s - %s - 01" % (hx(t[:k]), hx(t[k:])))
+    return out
+
+def audit_dec1_cases(ctx):
+    """one call per head form with the buffer ending at every offset, the library's own no-op callback table is run on the same
+    buffer by the harness (EMPTYCB marker)"""
+    out = [[]]
+    for ib in (0x00, 0x17, 0x18, 0x1B, 0x1C, 0x37, 0x3B, 0x40, 0x57, 0x58, 0x5B, 0x5F, 0x77, 0x7B, 0x7F, 0x97, 0x9B, 0x9F, 0xB7, 0xBB, 0xBF, 0xD7, 0xDB,
+               0xE0, 0xF3, 0xF4, 0xF5, 0xF6, 0xF7, 0xF8, 0xF9, 0xFA, 0xFB, 0xFC, 0xFF):
+        t = min_token(ib)
+        for k in range(1, len(t) + 1):
+            out.append(t[:k])
+        out.append(t + [0x00])
+    return [hx(b) for b in out]
+
+def audit_cases(ctx):
+    """the dec1 family (the frag family is audit_frag_cases)"""
+    return audit_dec1_cases(ctx)
